@@ -25,6 +25,7 @@ import (
 
 	"verifharness/internal/chainkit"
 	"verifharness/internal/faultkv"
+	"verifharness/internal/refimpl"
 	"verifharness/internal/vh"
 )
 
@@ -35,6 +36,7 @@ type action struct {
 	F    string `json:"f"`
 	Kind string `json:"kind"`
 	Seal string `json:"seal"`
+	From string `json:"from"` // OfferReclass: the class the field is moved from (Kind: the class it is moved to)
 	H    int    `json:"h"`
 }
 
@@ -56,7 +58,11 @@ type replayInput struct {
 	Start      int      `json:"start"` // index of the first behaviour (per-behaviour randomness derives from it)
 	Behaviours [][]step `json:"behaviours"`
 	Concurrent bool     `json:"concurrent"` // also run the concurrent verify-while-storing round
+	Classes    *classTable `json:"classes"` // the specification's class tables (ShapeClass, ClassIn)
 }
+
+// machinery marks an error of the harness itself (never a verdict about the code).
+type machinery struct{ error }
 
 // world tracks what exists on the stored chain, so that generated diffs are applicable.
 type world struct {
@@ -80,6 +86,7 @@ func newWorld() *world {
 }
 
 type content struct {
+	producerHash *felt.Felt // the hash the producer (the code's Simulate) computed, when it is not the reference's
 	built    *chainkit.Built
 	deploys  []felt.Felt
 	sierra   []felt.Felt
@@ -96,6 +103,7 @@ type session struct {
 	off     int // number of prelude blocks below the model's chain
 	cache   map[string]*content
 	pending map[string]*pendingBlock
+	ct      *classTable
 }
 
 type pendingBlock struct {
@@ -176,7 +184,7 @@ func (s *session) genContent(v string, shape string) (*content, error) {
 	classes := map[felt.Felt]core.ClassDefinition{}
 	c := &content{version: v}
 	switch shape {
-	case "emptydiff", "empty":
+	case "emptydiff", "empty", "zero", "void":
 		if g.R.Intn(2) == 0 {
 			d = &core.StateDiff{} // nil sections: the same (empty) diff
 		}
@@ -191,7 +199,7 @@ func (s *session) genContent(v string, shape string) (*content, error) {
 	var txs []core.Transaction
 	var rcs []*core.TransactionReceipt
 	switch shape {
-	case "full", "emptydiff":
+	case "full", "emptydiff", "zero", "void":
 		txs, rcs = s.fullTxs()
 	case "bare":
 		for _, k := range []string{"invoke3", "l1handler", "l1handler-legacy"} {
@@ -207,11 +215,6 @@ func (s *session) genContent(v string, shape string) (*content, error) {
 				inv.Tip = ^uint64(0)
 				inv.ResourceBounds[core.ResourceL2Gas] = core.ResourceBounds{MaxAmount: ^uint64(0), MaxPricePerUnit: maxU128()}
 				inv.Nonce = maxFelt()
-				h, err := core.TransactionHash(inv, chainkit.Network)
-				if err != nil {
-					return nil, err
-				}
-				chainkit.SetTxHash(inv, &h)
 			}
 			r := g.Receipt(tx, nil)
 			r.Reverted, r.RevertReason, r.L2ToL1Message = false, "", []*core.L2ToL1Message{}
@@ -220,14 +223,40 @@ func (s *session) genContent(v string, shape string) (*content, error) {
 			txs, rcs = append(txs, tx), append(rcs, r)
 		}
 	}
+	// every class field into the class the specification gives it in this shape; then the REFERENCE's
+	// transaction hashes (the code under test does not hash the valid transactions it must accept)
+	if err := s.ct.applyClasses(v, shape, txs, rcs, nil, g); err != nil {
+		return nil, machinery{err}
+	}
+	if err := refHashTxs(txs, rcs); err != nil {
+		return nil, machinery{err}
+	}
 	spec := chainkit.BlockSpec{Version: v, Diff: d, Classes: classes, Txs: txs, Receipts: rcs,
 		Timestamp: uint64(1_700_000_000 + g.R.Intn(1000)), Sequencer: g.Felt(), L1DAMode: core.L1DAMode(g.R.Intn(2))}
 	if shape == "bare" {
 		spec.Timestamp, spec.Sequencer = ^uint64(0)-1, maxFelt()
 	}
+	var hdrErr error
+	spec.Header = func(h *core.Header) { hdrErr = s.ct.applyClasses(v, shape, nil, nil, h, g) }
 	b, err := s.twin.Build(spec)
+	if hdrErr != nil {
+		return nil, machinery{hdrErr}
+	}
 	if err != nil {
 		return nil, err
+	}
+	if err := s.ct.checkClasses(v, shape, b.Block); err != nil {
+		return nil, machinery{err}
+	}
+	// the valid block declares the REFERENCE's block hash (the producer's - the code's - where the two agree)
+	parts, err := refimpl.BlockHash(b.Block, b.Update.StateDiff)
+	if err != nil {
+		return nil, machinery{fmt.Errorf("reference block hash: %w", err)}
+	}
+	if !parts.Hash.Equal(b.Block.Hash) {
+		c.producerHash = b.Block.Hash
+		h1, h2 := parts.Hash, parts.Hash
+		b.Block.Hash, b.Update.BlockHash = &h1, &h2
 	}
 	c.built = b
 	_ = w
@@ -502,7 +531,7 @@ func diffProbe(a, b map[string]string) []string {
 var needsPriorState = map[string]bool{"sd.replaced.class_hash": true, "sd.replaced.remove": true,
 	"sd.migrated.casm_hash": true, "sd.migrated.remove": true}
 
-func newSession(seed int64, idx int, beh []step) (*session, error) {
+func newSession(seed int64, idx int, beh []step, ct *classTable) (*session, error) {
 	g := chainkit.NewGen(seed*1_000_003 + int64(idx))
 	newState := idx%2 == 1
 	prelude := (idx/2)%3 != 0
@@ -513,7 +542,7 @@ func newSession(seed int64, idx int, beh []step) (*session, error) {
 	}
 	fk := faultkv.Wrap(memory.New())
 	s := &session{g: g, fk: fk, node: chainkit.NewNode(fk, newState), twin: chainkit.NewNode(nil, newState),
-		w:     newWorld(),
+		w:     newWorld(), ct: ct,
 		cache: map[string]*content{}, pending: map[string]*pendingBlock{}}
 	if prelude {
 		// two blocks below the model's chain: contracts and V1-declared Sierra classes exist
@@ -544,6 +573,12 @@ func TestBlockVerifyReplay(t *testing.T) {
 	if err := checkFieldTable(); err != nil {
 		t.Fatal(err)
 	}
+	// the reference hashes are evaluated on primitives that are not juno's
+	restore, err := refimpl.UseIndependent()
+	if err != nil {
+		t.Fatal(err)
+	}
+	defer restore()
 	var in replayInput
 	if err := vh.Input(&in); err != nil {
 		t.Fatal(err)
@@ -553,6 +588,7 @@ func TestBlockVerifyReplay(t *testing.T) {
 		seed = vh.Seed()
 	}
 	covered := map[string]int{}
+	classCovered := map[string]int{}
 	shapeCovered := map[string]int{}
 	shapeOffers := map[string]int{}
 	skipped := map[string]int{}
@@ -562,11 +598,11 @@ func TestBlockVerifyReplay(t *testing.T) {
 	nsteps := 0
 	for bi, beh := range in.Behaviours {
 		idx := in.Start + bi
-		s, err := newSession(seed, idx, beh)
+		s, err := newSession(seed, idx, beh, in.Classes)
 		if err != nil {
 			t.Fatalf("behaviour %d: %v", idx, err)
 		}
-		replay := vh.J{"seed": seed, "start": idx, "behaviours": [][]step{beh}}
+		replay := vh.J{"seed": seed, "start": idx, "behaviours": [][]step{beh}, "classes": in.Classes}
 		diverge := func(i int, key, what string, exp, obs any) {
 			out.Diverge(vh.Divergence{Key: key, What: what, Input: replay, Step: i, Expected: exp, Observed: obs})
 		}
@@ -618,6 +654,9 @@ func TestBlockVerifyReplay(t *testing.T) {
 			}
 			if a.Name != "StorePending" {
 				if c, err = s.pristine(a); err != nil {
+					if me, ok := err.(machinery); ok {
+						t.Fatalf("behaviour %d step %d: %v", idx, i, me.error)
+					}
 					// the producer (the real Simulate on the twin) refuses a block the specification
 					// allows: a verdict about the code (this never happens on a tree where C02 holds)
 					diverge(i, fmt.Sprintf("block-verify:producer-failed:%s:%s", a.Var, a.V),
@@ -647,6 +686,24 @@ func TestBlockVerifyReplay(t *testing.T) {
 				covered[a.F+"@"+a.V]++
 				shapeCovered[a.Var+":"+a.F]++
 				tag = "accepted-tamper:" + a.F
+				outc, accepts = s.run(o), c
+			case "OfferReclass":
+				// one committed field moved to another presence / value class, every declared hash kept
+				acc, known := carriers(a.F, o.B.Transactions, o.B.Receipts, o.B.Header)
+				if !known || len(acc) == 0 {
+					t.Fatalf("behaviour %d step %d: the specification moves %s in a %s block, the replayer finds no carrier", idx, i, a.F, a.Var)
+				}
+				if got := acc[0].get(); got != a.From {
+					t.Fatalf("behaviour %d step %d: %s in the %s block is in class %s, the specification says %s", idx, i, a.F, a.Var, got, a.From)
+				}
+				acc[0].set(a.Kind, nil)
+				if got := acc[0].get(); got != a.Kind {
+					t.Fatalf("behaviour %d step %d: %s cannot be moved to class %s (is %s)", idx, i, a.F, a.Kind, got)
+				}
+				move := a.F + ":" + a.From + ">" + a.Kind
+				classCovered[move+"@"+a.V]++
+				shapeCovered[a.Var+":"+move]++
+				tag = "accepted-tamper:" + move
 				outc, accepts = s.run(o), c
 			case "OfferWrongParent":
 				o.B.ParentHash = s.g.Felt()
@@ -773,7 +830,14 @@ func TestBlockVerifyReplay(t *testing.T) {
 				t.Fatalf("unknown action %q", a.Name)
 			}
 			if outc.Kind == "crash" || outc.Kind == "hang" {
-				diverge(i, fmt.Sprintf("block-verify:%s:%s:%s", outc.Kind, a.Name, a.F),
+				key := fmt.Sprintf("block-verify:%s:%s:%s", outc.Kind, a.Name, a.F)
+				if a.Name == "OfferReclass" {
+					key = fmt.Sprintf("block-verify:%s:%s:%s:%s>%s", outc.Kind, a.Name, a.F, a.From, a.Kind)
+					if outc.Kind == "crash" {
+						key = s.ct.crashKey(a.F, a.From, a.Kind, "")
+					}
+				}
+				diverge(i, key,
 					fmt.Sprintf("%s(%s %s %s %s) at height %d: juno did not return a verdict: %s %s", a.Name, a.V, a.Var, a.F, a.Kind, a.H, outc.Kind, outc.Err),
 					st.Res, outc)
 				if outc.Kind == "hang" { // the stuck goroutine cannot be stopped: report and leave
@@ -814,11 +878,18 @@ func TestBlockVerifyReplay(t *testing.T) {
 				key := fmt.Sprintf("block-verify:%s:%s", tag, a.V)
 				if st.Res.Kind == "accepted" || st.Res.Kind == "verified" {
 					key = fmt.Sprintf("block-verify:rejected-valid:%s:%s", a.Name, a.V)
+					if o != nil {
+						// where does the code's hash of this valid block differ from the reference's?
+						if cause := s.ct.whyRejected(o); cause != "" {
+							key = fmt.Sprintf("block-verify:rejected-valid:%s:%s:%s", cause, a.Var, a.V)
+							obs["reference"] = cause
+						}
+					}
 					if strings.Contains(outc.Err, "couldn't initialize the running event filter") {
 						// an earlier failure of the lazy filter initialisation is served again
 						key = "block-verify:rejected-valid:latched-filter-init-error"
 					}
-				} else if a.Name != "OfferTampered" {
+				} else if a.Name != "OfferTampered" && a.Name != "OfferReclass" {
 					key = fmt.Sprintf("block-verify:accepted:%s:%s", tag, a.V)
 				}
 				diverge(i, key, fmt.Sprintf("%s(%s %s %s) at height %d: specification says %s (%s), juno: %s %s",
@@ -886,6 +957,18 @@ func TestBlockVerifyReplay(t *testing.T) {
 		cov = append(cov, k)
 	}
 	out.Stats["covered"] = cov
+	ccov := []string{}
+	for k := range classCovered {
+		ccov = append(ccov, k)
+	}
+	out.Stats["class_covered"] = ccov
+	zcov := []string{}
+	for k := range shapeCovered {
+		if strings.HasPrefix(k, "zero:") && !strings.Contains(k, ">") {
+			zcov = append(zcov, strings.TrimPrefix(k, "zero:"))
+		}
+	}
+	out.Stats["zero_shape_covered"] = zcov
 	out.Stats["outcomes"] = stages
 	out.Stats["shape_field_tampers_replayed"] = len(shapeCovered)
 	out.Stats["offers_by_shape"] = shapeOffers
@@ -972,6 +1055,13 @@ func concurrentVerify(out *vh.Result, seed int64, replay any) {
 			c, err := s.genContent(v, []string{"full", "emptydiff", "full", "bare", "full", "empty"}[i])
 			if err != nil {
 				out.Diverge(vh.Divergence{Key: "block-verify:producer-failed:concurrent", What: err.Error(), Input: replay})
+				return
+			}
+			if c.producerHash != nil { // the code's own hash of a valid block is not the reference's
+				o := offerOf(c.built)
+				out.Diverge(vh.Divergence{Key: fmt.Sprintf("block-verify:rejected-valid:%s:concurrent", s.ct.whyRejected(o)),
+					What:  fmt.Sprintf("the producer (Simulate) hashes a valid %s block to %s, the reference to %s", v, c.producerHash, c.built.Block.Hash),
+					Input: replay})
 				return
 			}
 			if err := s.twin.StoreBuilt(c.built); err != nil {
